@@ -13,7 +13,7 @@ class _B(BaseException):
 def gen_trace(mod, rng):
     dbmod = importlib.import_module("trie.utils.db")
     keys = [bytes(rng.randrange(256) for _ in range(rng.choice([1, 2, 32]))) for _ in range(rng.randint(2, 6))]
-    vals = [bytes(rng.randrange(256) for _ in range(rng.choice([1, 5, 60]))) for _ in range(3)]
+    vals = [bytes(rng.randrange(256) for _ in range(rng.choice([1, 5, 60]))) for _ in range(2)] + [b"", b"\x00"]
     name = {k: "k" + k.hex() for k in keys}
     vname = {v: "v" + v.hex() for v in vals}
     wrapped = {k: rng.choice(vals) for k in keys if rng.random() < 0.5}
